@@ -883,7 +883,9 @@ class Linter:
         # disable_noqa_except is not set, return the entire map.
         if not disable_noqa_except:
             return reference_map
-        output_map = reference_map
+        # NOTE: Work on a copy, the reference map belongs to the rule pack (which
+        # may be used again) and we're about to add keys to it.
+        output_map = dict(reference_map)
         # Add the special rules so they can be excluded for `disable_noqa_except` usage
         for special_rule in ["PRS", "LXR", "TMP"]:
             output_map[special_rule] = {special_rule}
